@@ -10,13 +10,14 @@ package httpc
 // segment is kept; a missing or empty variable is an error.
 //@ func fillPath
 //@   prop C05
-//@   opaque Errorf, Sprint, Split, Join
+//@   opaque Errorf, valueText, Split, Join
+//@   replay httpc_pointer_fields
 //@   requires u != nil && m != nil
 //@   let seg = at_head(fields[rangeindex + 1])
 //@   let isVar = len(seg) > 0 && seg[0] == 58
 //@   loop 1 invariant -1 <= rangeindex && rangeindex <= len(fields)
-//@   loop 1 iteration-ensures [variable-segment-gets-the-value-verbatim] isVar ==> calls(Sprint) == 1 && fields[rangeindex] == ret(Sprint) && len(ret(Sprint)) > 0 && has(m, strsub(seg, 1, len(seg))) && unbox(arg(Sprint, 0), []any)[0] == m[strsub(seg, 1, len(seg))] && calls(nurl.PathEscape) == 0 && calls(nurl.QueryEscape) == 0
-//@   loop 1 iteration-ensures [plain-segment-kept] !isVar ==> fields[rangeindex] == seg && calls(Sprint) == 0
+//@   loop 1 iteration-ensures [variable-segment-gets-the-value-verbatim] isVar ==> calls(valueText) == 1 && fields[rangeindex] == ret(valueText, 0) && len(ret(valueText, 0)) > 0 && has(m, strsub(seg, 1, len(seg))) && arg(valueText, 0) == m[strsub(seg, 1, len(seg))] && calls(nurl.PathEscape) == 0 && calls(nurl.QueryEscape) == 0
+//@   loop 1 iteration-ensures [plain-segment-kept] !isVar ==> fields[rangeindex] == seg && calls(valueText) == 0
 //@   ensures [path-rejoined-from-segments] result == nil ==> calls(strings.Join) == 1 && u.Path == ret(strings.Join) && arg(strings.Join, 1) == "/"
 
 // buildRequest: the four tagged parts of the request struct each go where the server-side parser reads them:
@@ -35,12 +36,28 @@ package httpc
 //@   ensures [form-part-into-the-query] result1 == nil && data != nil ==> calls(buildFormQuery) == 1 && arg(buildFormQuery, 1) == m["form"] && result0.URL.RawQuery == ret(buildFormQuery)
 //@   ensures [header-part-into-the-header] result1 == nil && data != nil ==> calls(fillHeader) == 1 && arg(fillHeader, 0) == result0 && arg(fillHeader, 1) == m["header"]
 //@   ensures [request-with-callers-context-and-method] result1 == nil ==> result0 == ret(http.NewRequestWithContext, 0) && arg(http.NewRequestWithContext, 0) == ctx && arg(http.NewRequestWithContext, 1) == method
-// fillHeader / buildFormQuery: every entry is added under its own key with its textual value.
+// fillHeader / buildFormQuery: every entry that has a value is added under its own key with the text of its VALUE
+// (what a pointer field points to - never the pointer's address); an unset (nil) optional pointer is not sent.
 //@ func fillHeader
 //@   prop C05
+//@   opaque valueText
 //@   requires r != nil
-//@   loop 1 iteration-ensures [entry-added-verbatim] calls(Add) == 1 && arg(Add, 1) == k && arg(Add, 2) == ret(fmt.Sprint) && calls(fmt.Sprint) == 1 && unbox(arg(fmt.Sprint, 0), []any)[0] == v
+//@   replay httpc_pointer_fields
+//@   loop 1 iteration-ensures [entry-added-with-the-text-of-its-value] calls(valueText, v) == 1 && (ret(valueText, 1) ==> calls(Add) == 1 && arg(Add, 1) == k && arg(Add, 2) == ret(valueText, 0)) && (!ret(valueText, 1) ==> calls(Add) == 0)
 //@ func buildFormQuery
 //@   prop C05
-//@   loop 1 iteration-ensures [entry-added-verbatim] calls(Add) == 1 && arg(Add, 1) == k && arg(Add, 2) == ret(fmt.Sprint) && calls(fmt.Sprint) == 1 && unbox(arg(fmt.Sprint, 0), []any)[0] == v
+//@   opaque valueText
+//@   replay httpc_pointer_fields
+//@   loop 1 iteration-ensures [entry-added-with-the-text-of-its-value] calls(valueText, v) == 1 && (ret(valueText, 1) ==> calls(Add) == 1 && arg(Add, 1) == k && arg(Add, 2) == ret(valueText, 0)) && (!ret(valueText, 1) ==> calls(Add) == 0)
 //@   ensures [encoded-once] calls(Encode) == 1 && result == ret(Encode) && calls(u.Query) == 1
+
+// valueText: pointers are followed to the value they point to (so the text is never an address); a nil pointer
+// means "not set"; what is rendered is not of pointer kind.
+//@ func valueText
+//@   prop C05
+//@   opaque Sprint
+//@   replay httpc_pointer_fields
+//@   loop 1 iteration-ensures [pointer-followed] calls(IsNil) == 1 && !ret(IsNil) && calls(Elem) == 1 && arg(Elem, 0) == at_head(rv) && rv == ret(Elem)
+//@   ensures [nil-pointer-means-unset] !result1 ==> result0 == "" && calls(fmt.Sprint) == 0 && tail(calls(IsNil) == 1 && ret(IsNil))
+//@   ensures [text-of-a-non-pointer] result1 ==> calls(fmt.Sprint) == 1 && result0 == ret(fmt.Sprint) && ret(Kind, 0, last) != 22
+//@   ensures [the-value-itself-is-rendered] result1 && calls(Interface) == 1 ==> arg(Interface, 0) == local(rv) && unbox(arg(fmt.Sprint, 0), []any)[0] == ret(Interface)
